@@ -54,7 +54,7 @@ class Ctx:
         self.prop, self.tier, self.seed, self.keep, self.only = prop, tier, seed, keep, only
         self.scratch = None
         self.jobs = int(os.environ.get("VERIF_JOBS", "10"))
-        self.mem_gb = float(os.environ.get("VERIF_MEM_GB", "12"))
+        self.mem_gb = float(os.environ.get("VERIF_MEM_GB", "16"))
         self.results = []         # kani results
         self.smt = []             # smt obligation dicts
         self.notes = []
